@@ -261,3 +261,15 @@ def flatten_seq(term):
             return None
         return a + b
     return None
+
+
+def callable_passed_to(ctx, finfo, callee_suffix, pos=0):
+    """the nested function (def or `name = lambda ...`) that finfo hands to the call of <callee_suffix> as argument `pos`;
+    found through the data flow (the argument's name), whatever it is called.  Returns a FuncInfo."""
+    calls = calls_where(finfo.node, lambda c: callee_text(c).split('.')[-1] == callee_suffix, include_lambda=False)
+    if not calls or len(calls[0].args) <= pos:
+        raise AnalysisError('%s no longer calls %s with a callable' % (finfo.qualname, callee_suffix))
+    a = calls[0].args[pos]
+    if not isinstance(a, ast.Name):
+        raise AnalysisError('%s hands %s to %s (not a named local function)' % (finfo.qualname, unparse(a)[:40], callee_suffix))
+    return ctx.func('%s:%s.%s' % (finfo.module.name, finfo.qualname, a.id)), calls[0]
